@@ -97,7 +97,7 @@ def main():
         out = r.stdout
     except subprocess.TimeoutExpired as e:
         out = (e.stdout or b"").decode() if isinstance(e.stdout, bytes) else (e.stdout or "")
-        chk.malfunction("cargo kani exceeded the overall cap of %d s" % cap)
+        chk.cov["overall_cap_hit"] = "cargo kani was stopped at the overall cap of %d s; harnesses not reached are listed as undecided" % cap
     finally:
         subprocess.run(["pkill", "-x", "cbmc"], stdout=subprocess.DEVNULL, stderr=subprocess.DEVNULL)
     kani_s = time.time() - t0
